@@ -261,9 +261,9 @@ def guarded(f):
                         if o is r:
                             if single:
                                 STATE_ISSUES.append(("result-is-operand", _WHERE))
-                        elif any(np.shares_memory(x_, y_) for x_ in ra for y_ in _arrays_of(o)):
+                        elif single and any(np.shares_memory(x_, y_) for x_ in ra for y_ in _arrays_of(o)):
                             STATE_ISSUES.append(("result-shares-memory-with-operand", _WHERE))
-                    if any(np.shares_memory(x_, b_) for x_ in ra for b_ in _BUFS):
+                    if single and any(np.shares_memory(x_, b_) for x_ in ra for b_ in _BUFS):
                         STATE_ISSUES.append(("result-shares-memory-with-caller-buffer", _WHERE))
                     if _BUFS and _WHERE is not None and _WHERE.get("mutate"):
                         for b_ in _BUFS:
